@@ -236,6 +236,7 @@ func (d *dumper) defs(path string, parent meta.Meta, defs []meta.Definition) {
 			if y.IsMaxElementsSet() {
 				d.add(p, "max-elements", y.MaxElements())
 			}
+			d.add(p, "unbounded", y.Unbounded())
 			d.add(p, "ordered-by", y.OrderedBy())
 			d.typ(p, y.Type(), 0)
 		case *meta.Any:
